@@ -255,12 +255,13 @@ RECIPES = {
         "mc": {"quick": [("MC_Prefix", "MC_Prefix_q", 12)], "thorough": [("MC_Prefix", "MC_Prefix_t", 14)]},
         "families": {"quick": [("prefix", 2, 4)], "thorough": [("prefixall", 1, 6), ("prefix", 12, 6)]},
         "reasons": ("value", "panic"),
-        "tags": Q_ALL,
+        "tags": Q_ALL + SQ_ALL,
         "rule": "A: a template object built in TLA+ from the ABI (7 sections: names, .dynstr, .dynsym, .dynamic, note, text; "
                 "PT_DYNAMIC, PT_NOTE; tables early), EVERY prefix length 0..len (quick: ELF32 MSB, 498 prefixes; thorough: all four "
                 "encodings, plus an ET_CORE variant with a PT_LOAD segment) x 22 queries: TLC checks PrefixRel on the spec and emits every prefix as a session replayed on the crate; "
                 "B: objects laid out with tables early; every structure boundary +-1 (thorough: every prefix length) and appended "
-                "suffixes; the full query sweep on each prefix; TLC checks (i) the answer equals the spec's semantics on the prefix "
+                "suffixes; every other object carries a section of a little over 1 MiB; the full query sweep on each prefix through "
+                "the slice parser and (for a third of the prefixes, and all of the large objects') the stream parser; TLC checks (i) the answer equals the spec's semantics on the prefix "
                 "and (ii) the spec's answer on the prefix is an error or equals its answer on the complete file (PrefixRel)",
         "assumptions": COMMON_ASSUME + ["'appending changes no answer' is read as: non-error answers are unchanged"],
     },
